@@ -83,6 +83,14 @@ type propFunc func(r *Result, d *drv.Driver, tier string, seed int64, replay str
 
 var props = map[string]propFunc{}
 
+// crumb records the input about to be given to the real code (KV_CRUMB names the file): if the process dies inside the
+// library, the check runner reports this as the failing input
+func crumb(s string) {
+	if p := os.Getenv("KV_CRUMB"); p != "" {
+		_ = os.WriteFile(p, []byte(s), 0o644)
+	}
+}
+
 func main() {
 	prop := flag.String("prop", "", "property id")
 	tier := flag.String("tier", "quick", "quick|thorough")
